@@ -295,6 +295,12 @@ class Extractor {
     if (virt) {
       J.raw(",\"virt\":1");
     }
+    // an inline / constexpr function that is used but has no definition anywhere in this translation unit:
+    // every such use is ill-formed (no diagnostic required) and fails to link
+    if (FD->isInlined() && !FD->isDefined() && !FD->isDeleted() && !FD->isDefaulted() && !FD->getBuiltinID() &&
+        !FD->isPure() && !FD->isImplicit()) {
+      J.raw(",\"ui\":1");
+    }
     if (const auto* MD = dyn_cast<CXXMethodDecl>(FD)) {
       J.raw(",\"cr\":");
       J.num(S(RecName(MD->getParent())));
